@@ -45,6 +45,8 @@ MUTANTS = {
     'c03-collapse-halfedge-props-shifted': ('C03', TK, 'swap_property_elements(hf.halfedges()[j], heh);', 'swap_property_elements(hf.halfedges()[(j + 1) % 3], heh);', 'collapse-1'),
     'c03-collapse-halfface-props-shifted': ('C03', TK, 'swap_property_elements(c.halffaces()[hf_idx], hfh);', 'swap_property_elements(c.halffaces()[(hf_idx + 1) % 4], hfh);', 'collapse-1'),
     'c03-collapse-vertex-props-disturbed': ('C03', TK, '    delete_vertex(from_vh);\n\n    for (const auto &n: new_cells) {', '    swap_property_elements(from_vh, to_vh);\n    delete_vertex(from_vh);\n\n    for (const auto &n: new_cells) {', 'collapse-1'),
+    # the seeded change seeded/C03c_property_copy_moves_source (verified with bin/seedtest.py: CAUGHT, C03:SplitPropsFollow:C)
+    'c03-copy-moves-source': ('C03', 'src/OpenVolumeMesh/Core/Properties/PropertyStorageT.hh', 'data_[_dst_idx] = data_[_src_idx];', 'data_[_dst_idx] = std::move(data_[_src_idx]);', 'splits'),
     'tet-label-getlabel-halfedge': ('C15', TTC, 'return opposite(hel);', 'return hel;', 'labels'),
     'tet-label-constructor-cd': ('C15', TTC, 'hfh<ACD>() = cur_hfh;\n                heh_[CD] = *heh_it;', 'hfh<ACD>() = cur_hfh;\n                heh_[CD] = heh;', 'labels'),
     'tet-triangle-start': ('C15', TRC, 'if (idx == 0 && _mesh.from_vertex_handle(heh) != _a) {', 'if (idx == 0 && _mesh.to_vertex_handle(heh) != _a) {', 'labels'),
